@@ -448,6 +448,128 @@ pub fn run(sut: &dyn Sut, tier: Tier) -> ! {
         let mut ch = Ch::new(&f.choices);
         let c = build_case(&mut ch, &fixtures);
         run.violation(json!({"kind": "c17", "text": c.text, "validate": vjson(c.validate), "choices": f.choices}), &f.message);
+        run.finish(&stats);
+    }
+    if tier == Tier::Thorough {
+        fuzz_campaigns(&mut run, &mut stats, &fixtures);
     }
     run.finish(&stats)
+}
+
+/// decode a libFuzzer input exactly like fuzz/fuzz_targets/c17.rs does
+pub fn decode_fuzz_input(data: &[u8]) -> Option<Case> {
+    if data.is_empty() {
+        return None;
+    }
+    let text = std::str::from_utf8(&data[1..]).ok()?;
+    let validate = match data[0] % 4 {
+        0 => Validate::All,
+        1 => Validate::Default,
+        2 => Validate::Bits(u32::from_le_bytes([data[0], data.get(1).copied().unwrap_or(0), data.get(2).copied().unwrap_or(0), data.get(3).copied().unwrap_or(0)])),
+        _ => Validate::All,
+    };
+    Some(Case { text: text.to_string(), validate, label: "fuzz" })
+}
+
+/// worker child: judge one text (crash isolation when re-evaluating a fuzzer artifact)
+pub fn worker_judge(sut: &dyn Sut, req: &serde_json::Value) -> ! {
+    let c = Case { text: req["text"].as_str().unwrap_or("").to_string(), validate: vfrom(&req["validate"]), label: "fuzz" };
+    let r = std::thread::scope(|s| std::thread::Builder::new().stack_size(1 << 30).spawn_scoped(s, || judge(sut, &c, &mut Stats::new())).unwrap().join());
+    let v = match r {
+        Ok(Ok(())) => json!({"ok": true}),
+        Ok(Err(m)) => json!({"ok": false, "message": m}),
+        Err(_) => json!({"ok": true, "note": "judge thread panicked"}),
+    };
+    println!("{v}");
+    std::process::exit(0)
+}
+
+fn fuzz_campaigns(run: &mut Run, stats: &mut Stats, fixtures: &[String]) {
+    let base = std::path::Path::new(VERIF_DIR).join("work/fuzz");
+    let _ = std::fs::remove_dir_all(&base);
+    let corpus = base.join("corpus_seeded");
+    let empty = base.join("corpus_empty");
+    let artifacts = base.join("artifacts");
+    for d in [&corpus, &empty, &artifacts] {
+        std::fs::create_dir_all(d).expect("fuzz dirs");
+    }
+    // seed corpus: repository fixtures and generated shaders, with each flag byte
+    let mut n = 0;
+    for (i, f) in fixtures.iter().enumerate() {
+        for flag in 0u8..3 {
+            let mut b = vec![flag];
+            b.extend_from_slice(f.as_bytes());
+            std::fs::write(corpus.join(format!("fixture_{i}_{flag}")), b).unwrap();
+            n += 1;
+        }
+    }
+    let (_r, sampled) = sample(run.seed_for(77), 120, (64, 400));
+    for (i, t) in sampled.trees.iter().enumerate() {
+        let c = t.current();
+        let mut ch = Ch::new(&c);
+        let case = build_case(&mut ch, fixtures);
+        let mut b = vec![(i % 3) as u8];
+        b.extend_from_slice(case.text.as_bytes());
+        std::fs::write(corpus.join(format!("gen_{i}")), b).unwrap();
+        n += 1;
+    }
+    stats.extra.insert("fuzz_seed_corpus_files".into(), json!(n));
+    let seed = (run.seed % 0x7fff_ffff).max(1);
+    let mut total_execs = 0u64;
+    for (name, dir, runs) in [("seeded", &corpus, 600_000u64), ("empty", &empty, 200_000u64)] {
+        let out = std::process::Command::new("cargo")
+            .current_dir(format!("{VERIF_DIR}/harness"))
+            .env("CARGO_NET_OFFLINE", "true")
+            .args(["+nightly", "fuzz", "run", "c17"])
+            .arg(dir)
+            .arg("--")
+            .arg(format!("-runs={runs}"))
+            .arg(format!("-seed={seed}"))
+            .arg(format!("-dict={VERIF_DIR}/harness/fuzz/wgsl.dict"))
+            .args(["-len_control=0", "-max_len=4096", "-timeout=60", "-rss_limit_mb=6144", "-print_final_stats=1"])
+            .arg(format!("-artifact_prefix={}/", artifacts.display()))
+            .output();
+        let out = match out {
+            Ok(o) => o,
+            Err(e) => {
+                eprintln!("cannot run cargo fuzz: {e}");
+                std::process::exit(2);
+            }
+        };
+        let err = String::from_utf8_lossy(&out.stderr);
+        let execs = err.lines().find_map(|l| l.strip_prefix("stat::number_of_executed_units:").and_then(|x| x.trim().parse::<u64>().ok())).unwrap_or(0);
+        total_execs += execs;
+        stats.extra.insert(format!("fuzz_{name}_execs"), json!(execs));
+        let cov = err.lines().rev().find(|l| l.contains(" cov: ")).map(|l| l.trim().to_string()).unwrap_or_default();
+        stats.extra.insert(format!("fuzz_{name}_last_status"), json!(cov));
+        if !out.status.success() {
+            // an artifact was written: re-judge it in a crash-isolated worker
+            let mut arts: Vec<_> = std::fs::read_dir(&artifacts).map(|rd| rd.flatten().map(|e| e.path()).collect()).unwrap_or_default();
+            arts.sort();
+            let Some(a) = arts.first() else {
+                eprintln!("cargo fuzz failed without an artifact:\n{}", err.chars().rev().take(3000).collect::<String>().chars().rev().collect::<String>());
+                std::process::exit(2);
+            };
+            let data = std::fs::read(a).unwrap_or_default();
+            let Some(c) = decode_fuzz_input(&data) else {
+                eprintln!("fuzz artifact {} does not decode", a.display());
+                std::process::exit(2);
+            };
+            let req = json!({"text": c.text, "validate": vjson(c.validate)});
+            let r = crate::worker::run_child(&crate::worker::ChildSpec { cmd: "c17judge", request: &req, env_clear: false, env: vec![], cwd: None, cpu_limit_s: 300, wall_limit_s: 600.0 });
+            match r.response {
+                Some(v) if v["ok"] == json!(false) => {
+                    let m = v["message"].as_str().unwrap_or("fuzz violation").to_string();
+                    run.violation(json!({"kind": "c17", "text": c.text, "validate": vjson(c.validate), "found_by": format!("libFuzzer ({name} corpus)")}), &m);
+                    return;
+                }
+                _ => {
+                    eprintln!("libFuzzer stopped on an input that is not a C17 violation when re-judged (timeout, OOM or a crash inside naga): inconclusive. artifact {}", a.display());
+                    std::process::exit(2);
+                }
+            }
+        }
+    }
+    stats.evaluations += total_execs;
+    stats.extra.insert("fuzz_total_execs".into(), json!(total_execs));
 }
